@@ -52,12 +52,14 @@ def run_analysis_property(prop, tier, seed):
     for r in recs:
         slim = {"id": r["id"], "outcome": r.get("outcome"), "fails": r.get("fails", []), "nq": r.get("nq", 0)}
         if prop == "C17":
-            slim["ranges"] = r.get("ranges", [])
+            # the same range is reported again and again (the reference list of a popular symbol at every offset): once is enough
+            slim["ranges"] = [list(x) for x in sorted(set(tuple(x) for x in r.get("ranges", [])))]
+            r["ranges"] = slim["ranges"]
         if prop == "C06":
             slim["idents"] = r.get("idents", [])
         cur.append(slim)
-        vol += 50 + 8 * len(slim.get("ranges", [])) + 40 * len(slim.get("idents", []))
-        if vol > 1_500_000 or len(cur) >= 20000:
+        vol += 50 + 45 * len(slim.get("ranges", [])) + 40 * len(slim.get("idents", []))        # bytes of the ndjson line, roughly
+        if vol > 12_000_000 or len(cur) >= 20000:
             chunks.append(cur)
             cur, vol = [], 0
     if cur:
@@ -72,7 +74,7 @@ def run_analysis_property(prop, tier, seed):
         common.tlc_must(r, "ObsTrace chunk %d" % ci)
         return r
 
-    with concurrent.futures.ThreadPoolExecutor(max_workers=4) as ex:
+    with concurrent.futures.ThreadPoolExecutor(max_workers=6) as ex:
         for r in ex.map(judge, range(len(chunks))):
             states += r.distinct
             rejects.extend(p_text.parse_rejects(r))
